@@ -137,3 +137,128 @@ def b3b_task(envr, item):
 GROUPS.append(Group('B3b', 'the parser recognises each helper output as exactly one sequence and no text', ['C19'], 'B',
                     sorted(HELPERS) + ['cursor_position_str', 'ParsedAnsiControlSequenceString.__init__'], b3b_items, b3b_task,
                     bounds='helper arguments -99..999 (symbolic; the decimal digits are then explicit characters)'))
+
+
+# ============================================================================================= S2D: settings_to_dict
+CL_S2D = [Clause('result-is-prior-state-with-codes-applied', 'post_s2d_is_fold'),
+          Clause('result-is-a-new-dict', 'post_s2d_result_is_new'),
+          Clause('entries-are-the-given-setting-objects', 'post_s2d_entries_are_given_settings')]
+
+
+def group_setting(c, kind, name, no_intro=True):
+    """a setting that is one parameter group: a single code (not a bare 38/48/58), 38|48|58;5;n or 38|48|58;2;r;g;b"""
+    if kind == 'code':
+        code = c.named_int('code_' + name, 0, 110)
+        if no_intro:
+            c.assume(b_and(i_cmp('!=', code, 38), i_cmp('!=', code, 48), i_cmp('!=', code, 58)))
+        rope = sym.mk_rope([('istr', code)])
+    elif kind == 'c256':
+        intro = [38, 48, 58][c.choice(3)]
+        rope = sym.mk_rope([('lit', '%d;5;' % intro), ('istr', c.named_int('n_' + name, 0, 255))])
+    else:
+        intro = [38, 48, 58][c.choice(3)]
+        r_, g_, b_ = (c.named_int(x + '_' + name, 0, 255) for x in 'rgb')
+        rope = sym.mk_rope([('lit', '%d;2;' % intro), ('istr', r_), ('lit', ';'), ('istr', g_), ('lit', ';'), ('istr', b_)])
+    return PObj('AnsiSetting', {'_str': rope})
+
+
+def s2d_items(tier):
+    out = []
+    kinds = ('code', 'c256', 'rgb')
+    maxk = 2 if tier == 'quick' else 3
+    seqs = [[]]
+    for k in range(1, maxk + 1):
+        seqs += [list(x) for x in __import__('itertools').product(kinds if k < 3 else ('code', 'c256'), repeat=k)]
+    for sq in seqs:
+        for nold in (0, 1, 2):
+            if tier == 'quick' and nold == 2 and len(sq) > 1:
+                continue
+            for dflt in ((0, 1) if nold == 0 else (0,)):
+                out.append([sq, nold, dflt])
+    return out
+
+
+def s2d_task(envr, item):
+    sq, nold, use_default = item
+    I = envr.interp
+
+    def body(c):
+        settings = PList([group_setting(c, k, 's%d' % i) for i, k in enumerate(sq)])
+        args = [settings]
+        if not use_default:
+            old = PDict()
+            groups = []
+            for j in range(nold):
+                # a prior entry as settings_to_dict itself would have stored it: keyed by the effect of an apply code
+                code = c.named_int('oldcode%d' % j, 1, 107)
+                st = PObj('AnsiSetting', {'_str': sym.mk_rope([('istr', code)])})
+                try:
+                    param = I.bm.enum_by_value(I, 'AnsiParam', code)
+                except sym.PyExc:
+                    raise sym.Infeasible()   # not a code the library knows: no such prior entry exists
+                c.assume(sym.Z(sym.b_and(sym.i_cmp('!=', code, 38), sym.i_cmp('!=', code, 48), sym.i_cmp('!=', code, 58))))
+                fn = I.getattr(param, 'effect_fn')
+                if not I.truth(I.bm.v_eq(I, fn, I.lift_enum(envr.program.enum_native['AnsiParamEffectFn'].APPLY_SETTING))):
+                    raise sym.Infeasible()
+                eff = I.getattr(param, 'effect_type')
+                for g in groups:
+                    c.assume(sym.i_cmp('!=', eff.index, g.index))
+                groups.append(eff)
+                old.keys.append(eff)
+                old.vals.append(st)
+            args.append(old)
+        run_contract(envr, c, 'settings_to_dict', None, args, {}, CL_S2D if not use_default else CL_S2D[:1],
+                     frame=('settings', 'old_settings_dict') if not use_default else ('settings',),
+                     fields={} if not use_default else {'old_old_settings_dict': PDict()})
+    return ContractRun(body, CL_S2D if not use_default else CL_S2D[:1],
+                       frame=('settings', 'old_settings_dict') if not use_default else ('settings',), use=('K1',))
+
+
+GROUPS.append(Group('S2D', 'settings_to_dict applies the codes of the settings on top of the prior state; arguments untouched',
+                    ['C18', 'C01', 'C02'], 'B', ['settings_to_dict', 'AnsiSetting.get_initial_param'], s2d_items, s2d_task,
+                    bounds='0-2/3 settings, each one parameter group with symbolic numbers (any code 0..110 except a bare 38/48/58; '
+                    '38|48|58;5;n; 38|48|58;2;r;g;b); prior dict with 0-2 entries, or the default argument', assumes=['T1']))
+
+# ============================================================================================= J1: parse_graphic_sequence
+CL_J1 = [Clause('reduces-to-the-terminal-state-of-the-code-list', 'post_parse_terminal_agreement'),
+         Clause('erroneous-mode-keeps-every-integer-token-in-order', 'post_parse_all_tokens_kept'),
+         Clause('empty-sequence-means-reset', 'post_parse_empty_is_reset'),
+         Clause('returned-settings-are-complete-groups', 'post_parse_groups_are_complete')]
+
+
+def j1_items(tier):
+    K = 4 if tier == 'quick' else 6
+    out = []
+    for k in range(0, K + 1):
+        for form in ('list', 'str'):
+            for ae in (0, 1):
+                out.append([k, form, ae])
+    out.append([2, 'strlist', 0])
+    out.append([3, 'strlist', 1])
+    return out
+
+
+def j1_task(envr, item):
+    k, form, ae = item
+
+    def body(c):
+        vals = [c.named_int('v%d' % i, 0, 255) for i in range(k)]
+        if form == 'list':
+            seq = PList(vals)
+        elif form == 'strlist':
+            seq = PList([sym.mk_rope([('lit', ' '), ('istr', v)]) for v in vals])
+        else:
+            atoms = []
+            for i, v in enumerate(vals):
+                if i:
+                    atoms.append(('lit', ';'))
+                atoms.append(('istr', v))
+            seq = sym.mk_rope(atoms)
+        run_contract(envr, c, 'parse_graphic_sequence', None, [seq, bool(ae)], {}, CL_J1, frame=('sequence',))
+    return ContractRun(body, CL_J1, frame=('sequence',), use=('K1',))
+
+
+GROUPS.append(Group('J1', 'parse_graphic_sequence agrees with a terminal reading of the same code list', ['C18', 'C02', 'C14'], 'B',
+                    ['parse_graphic_sequence', '_AnsiControlFn.seq_starts_with_fn', 'AnsiSetting.__init__'], j1_items, j1_task,
+                    bounds='code lists of length <=4/6 with symbolic values 0..255, given as list of ints, list of strings, or '
+                    '";"-separated string; both add_erroneous modes', assumes=['T1']))
